@@ -16,6 +16,9 @@ var VerifStatusHook func(stage *Stage, status int32)
 // VerifScheduleHook is called on entry to and return from Schedule.
 var VerifScheduleHook func(s *Scheduler, g *ExecutionGraph, enter bool, err error)
 
+// VerifRunHook is called by the stage goroutine immediately before and after runStage.
+var VerifRunHook func(stage *Stage, enter bool, err error)
+
 // VerifSetPause changes the pause between two passes of the scheduling loop.
 func (s *Scheduler) VerifSetPause(d time.Duration) { s.pause = d }
 
@@ -34,5 +37,11 @@ func verifStatus(stage *Stage, status int32) {
 func verifSchedule(s *Scheduler, g *ExecutionGraph, enter bool, err error) {
 	if h := VerifScheduleHook; h != nil {
 		h(s, g, enter, err)
+	}
+}
+
+func verifRun(stage *Stage, enter bool, err error) {
+	if h := VerifRunHook; h != nil {
+		h(stage, enter, err)
 	}
 }
